@@ -36,7 +36,74 @@ BASE: dict[str, Any] = {
     "key": "k",
     "pname": "p_use",
     "user": {"name": "Ann", "tags": ["x", "y"], "admin": False},
+    "dt": "2021-03-05 15:00:00",
+    # only the short-circuit forms mention `b`, so it can be deleted without making any
+    # other statement of a program incomplete
+    "b": {"name": "Bob", "tags": ["x"], "n": 1, "k": 1},
 }
+
+# Context names the babel filters look up *themselves* when present (they are not
+# referenced by the template): a program stays "complete" whether or not they are given.
+OPTIONAL: dict[str, Any] = {
+    "locale": "de",
+    "input_locale": "en_US",
+    "currency_code": "EUR",
+    "currency_format": "#,##0.00 \u00a4",
+    "timezone": "Europe/Paris",
+    "input_timezone": "UTC",
+    "datetime_format": "short",
+    "decimal_quantization": False,
+    "decimal_format": "#,##0.0",
+    "unit_length": "long",
+    "unit_format": "#,##0.0",
+}
+
+BABEL: list[tuple[str, str]] = [
+    ("babel:currency", "{{ n | currency }}"),
+    ("babel:money", "{{ h.n | money }}"),
+    ("babel:money_with_currency", "{{ 1234.5 | money_with_currency }}"),
+    ("babel:money_without_currency", "{{ '1,234.50' | money_without_currency }}"),
+    ("babel:money_without_trailing_zeros", "{{ n | money_without_trailing_zeros }}"),
+    ("babel:currency-kw", "{{ n | currency: group_separator: false }}"),
+    ("babel:decimal", "{{ 1234.5 | decimal }}"),
+    ("babel:decimal-kw", "{{ '1,234.5' | decimal: group_separator: false }}"),
+    ("babel:datetime", "{{ dt | datetime }}"),
+    ("babel:datetime-format", "{{ dt | datetime: format: 'short' }}"),
+    ("babel:unit", "{{ n | unit: 'length-meter' }}"),
+    ("babel:unit-length", "{{ n | unit: 'length-meter', length: 'long' }}"),
+    ("babel:unit-compound", "{{ n | unit: 'length-kilometer', denominator_unit: 'duration-hour' }}"),
+    ("babel:unit-denominator", "{{ n | unit: 'length-kilometer', denominator: 2, denominator_unit: 'duration-hour', length: 'short' }}"),
+    ("babel:unit-format", "{{ n | unit: 'length-meter', format: '#.0' }}"),
+    ("babel:assign", "{% assign p = h.n | currency %}[{{ p }}]"),
+    ("babel:for", "{% for x in arr %}{{ x | decimal }} {% endfor %}"),
+    ("babel:for-money", "{% for x in h.list %}{{ x | money }};{% endfor %}"),
+    ("babel:if", "{% if t %}{{ idx | currency }}{% endif %}"),
+    ("babel:chain", "{{ n | plus: 1 | money_with_currency | upcase }}"),
+    ("babel:render", "{% render 'p_money', x: n %}"),
+    ("babel:include", "{% include 'p_money', x: h.n %}"),
+    ("babel:template-string", "{{ \"cost ${n | currency}\" }}"),
+    ("babel:ternary", "{{ n | currency if t else z | decimal }}"),
+    ("i18n:t", "{{ 'Hello %(who)s' | t: who: s }}"),
+    ("i18n:t-plural", "{{ 'one %(count)s' | t: plural: 'many %(count)s', count: n }}"),
+    ("i18n:gettext", "{{ s | gettext }}"),
+    ("i18n:ngettext", "{{ 'one' | ngettext: 'many', n }}"),
+    ("i18n:pgettext", "{{ s | pgettext: 'ctx' }}"),
+    ("i18n:npgettext", "{{ 'one' | npgettext: 'ctx', 'many', n }}"),
+    ("i18n:translate-tag", "{% translate who: s, count: n %}Hi %(who)s{% plural %}Hi all %(who)s{% endtranslate %}"),
+]
+BABEL_INPUT: list[tuple[str, str]] = [
+    ("filter:currency", "{{ {P} | currency }}"),
+    ("filter:money", "{{ {P} | money }}"),
+    ("filter:decimal", "{{ {P} | decimal }}"),
+    ("filter:datetime", "{{ {P} | datetime }}"),
+    ("filter:unit", "{{ {P} | unit: 'length-meter', length: 'short' }}"),
+    ("filter-arg:unit", "{{ n | unit: {P} }}"),
+    ("filter-arg:unit-length", "{{ n | unit: 'length-meter', length: {P} }}"),
+    ("filter-arg:datetime-format", "{{ dt | datetime: format: {P} }}"),
+    ("filter-arg:t", "{{ 'Hello %(who)s' | t: who: {P} }}"),
+    ("filter:t", "{{ {P} | t }}"),
+    ("filter-arg:ngettext", "{{ 'one' | ngettext: 'many', {P} }}"),
+]
 
 PARTIALS: dict[str, str] = {
     "p_use": "[{{ x }}]",
@@ -46,6 +113,7 @@ PARTIALS: dict[str, str] = {
     "p_for": "[{% for i in x %}{{ i }}{% else %}-{% endfor %}]",
     "p_eq": "[{% if x == nil %}nil{% else %}val{% endif %}]",
     "p_glob": "[{{ s }}{{ h.k }}]",
+    "p_money": "[{{ x | money }}|{{ x | unit: 'mass-gram', length: 'short' }}]",
 }
 
 # expressions that resolve in BASE -----------------------------------------------------
@@ -268,6 +336,9 @@ for _k, _c in CONDS:
     if _k in ("if-or", "if-and", "if-eq", "if-truthy", "if-eq-nil", "if-not"):
         STMTS.append(("ternary-" + _k, "{{ 'T' if " + _c + " else 'F' }}"))
 
+STMTS.extend(BABEL)
+STMTS.extend(BABEL_INPUT)
+
 SEPS = ["", ";", " | ", "\n", "<br>"]
 
 
@@ -412,17 +483,75 @@ FALSY_NOUSE: list[tuple[str, str]] = [
 ]
 
 
-def nouse_program(rng: random.Random) -> tuple[list[tuple[str, str]], list[str]]:
+# Short circuit: the LEFT operand decides, so the right one (a comparison / membership /
+# size test that would have to touch its operand) is never evaluated and a variable that
+# occurs only there is not used -- in render() and in render_async() alike.
+SC_RIGHT = [
+    "b == 1", "b.size == 0", "b.tags contains 'x'", "b[key] == 1", "b < 3", "'x' in b.tags",
+    "b.name != 'Bob'", "b.tags.first == 'x'", "b.n >= n", "b.tags.size > 1", "b.k == h.n",
+    "b.name contains s", "b[key] <= idx",
+]
+SC_RIGHT_LAMBDA = ["b[i.v] == 1", "b.tags contains i.v", "b.n < i.k", "b == i"]
+SC_FORMS: list[tuple[str, str]] = [
+    ("nouse:sc-or", "{% if t or {C} %}T{% else %}F{% endif %}"),
+    ("nouse:sc-and", "{% if f and {C} %}T{% else %}F{% endif %}"),
+    ("nouse:sc-or-cmp-left", "{% if s == 'hello' or {C} %}T{% else %}F{% endif %}"),
+    ("nouse:sc-and-cmp-left", "{% if n > 5 and {C} %}T{% else %}F{% endif %}"),
+    ("nouse:sc-or-contains-left", "{% if arr contains 2 or {C} %}T{% else %}F{% endif %}"),
+    ("nouse:sc-unless", "{% unless t or {C} %}T{% else %}F{% endunless %}"),
+    ("nouse:sc-unless-and", "{% unless f and {C} %}T{% else %}F{% endunless %}"),
+    ("nouse:sc-elsif", "{% if f %}a{% elsif t or {C} %}b{% else %}c{% endif %}"),
+    ("nouse:sc-elsif-and", "{% if f %}a{% elsif f and {C} %}b{% else %}c{% endif %}"),
+    ("nouse:sc-ternary-or", "{{ 'a' if t or {C} else 'b' }}"),
+    ("nouse:sc-ternary-and", "{{ 'a' if f and {C} else 'b' }}"),
+    ("nouse:sc-nested-or", "{% if t or ({C} and {C}) %}T{% else %}F{% endif %}"),
+    ("nouse:sc-nested-and", "{% if f and ({C} or {C}) %}T{% else %}F{% endif %}"),
+    ("nouse:sc-nested-left", "{% if (f and {C}) or t %}T{% else %}F{% endif %}"),
+    ("nouse:sc-not-left", "{% if (not f) or {C} %}T{% else %}F{% endif %}"),
+    ("nouse:sc-not-right", "{% if t or (not {C}) %}T{% else %}F{% endif %}"),
+    ("nouse:sc-chain-or", "{% if t or {C} or {C} %}T{% else %}F{% endif %}"),
+    ("nouse:sc-chain-and", "{% if f and {C} and {C} %}T{% else %}F{% endif %}"),
+    ("nouse:sc-mixed", "{% if f and {C} or t %}T{% else %}F{% endif %}"),
+    ("nouse:sc-liquid-tag", "{% liquid\nif t or {C}\necho 'T'\nendif %}"),
+    ("nouse:sc-in-loop", "{% for x in arr %}{% if x or {C} %}{{ x }}{% endif %}{% endfor %}"),
+    ("nouse:sc-in-partial", "{% render 'p_sc', x: t %}"),
+    ("nouse:sc-lambda-or", "{{ objs | where: i => i.k or {CL} | size }}"),
+    ("nouse:sc-lambda-and", "{{ objs | has: i => f and {CL} }}"),
+    ("nouse:sc-lambda-find", "{{ objs | find: i => i.v or {CL} | size }}"),
+    ("nouse:sc-lambda-reject", "{{ objs | reject: i => f and {CL} | size }}"),
+]
+PARTIALS["p_sc"] = "[{% if x or b.tags contains 'y' %}T{% else %}F{% endif %}]"
+SC_DELETIONS: list[list[tuple]] = [[], [("b",)], [("b", "tags")], [("b", "name"), ("b", "n"), ("b", "k")]]
+
+
+def sc_fill(tpl: str, pick) -> str:  # noqa: ANN001
+    out = tpl
+    while "{CL}" in out:
+        out = out.replace("{CL}", pick(SC_RIGHT + SC_RIGHT_LAMBDA), 1)
+    while "{C}" in out:
+        out = out.replace("{C}", pick(SC_RIGHT), 1)
+    return out
+
+
+def nouse_program(rng: random.Random) -> tuple[list[tuple[str, str]], list[str], list[tuple]]:
     """A program in which the only missing paths sit where they are documented not to be
-    used.  Returns (statements, policies that must not raise UndefinedError)."""
-    falsy_only = rng.random() < 0.4
-    kind, tpl = rng.choice(FALSY_NOUSE if falsy_only else NOUSE)
-    text = tpl.replace("${{M}", "${\x00")
-    while "{M}" in text:
-        text = text.replace("{M}", rng.choice(SIMPLE_MISSING), 1)
-    while "\x00" in text:
-        text = text.replace("\x00", rng.choice(SIMPLE_MISSING), 1)
-    text = fill(rng, text, True)
+    used.  Returns (statements, policies that must not raise UndefinedError, deletions)."""
+    r = rng.random()
+    dels: list[tuple] = []
+    if r < 0.3:
+        falsy_only = False
+        kind, tpl = rng.choice(SC_FORMS)
+        text = sc_fill(tpl, rng.choice)
+        dels = list(rng.choice(SC_DELETIONS))
+    else:
+        falsy_only = r < 0.6
+        kind, tpl = rng.choice(FALSY_NOUSE if falsy_only else NOUSE)
+        text = tpl.replace("${{M}", "${\x00")
+        while "{M}" in text:
+            text = text.replace("{M}", rng.choice(SIMPLE_MISSING), 1)
+        while "\x00" in text:
+            text = text.replace("\x00", rng.choice(SIMPLE_MISSING), 1)
+        text = fill(rng, text, True)
     stmts = [(kind, text)]
     # surround with complete statements
     for _ in range(rng.choice((0, 0, 1, 2))):
@@ -435,7 +564,7 @@ def nouse_program(rng: random.Random) -> tuple[list[tuple[str, str]], list[str]]
             stmts.append((k2, x2))
         else:
             stmts.insert(0, (k2, x2))
-    return stmts, (["falsy"] if falsy_only else ["strict", "falsy"])
+    return stmts, (["falsy"] if falsy_only else ["strict", "falsy"]), dels
 
 
 # ---------------------------------------------------------------------------------------
@@ -452,15 +581,20 @@ def fill_fixed(tpl: str, p: str, a: str, q: str = "n", r: str = "s") -> str:
     return out
 
 
-def sweep() -> list[tuple[str, str, tuple[str, ...]]]:
-    """[(kind, source, policies that must not raise)]"""
-    out: list[tuple[str, str, tuple[str, ...]]] = []
+def sweep() -> list[dict[str, Any]]:
+    """[{kind, src, nouse: policies that must not raise, complete, extra: data added,
+    delete: positions removed, both: render sync and async}]"""
+    out: list[dict[str, Any]] = []
     seen: set[str] = set()
 
-    def add(kind: str, text: str, nouse: tuple[str, ...] = ()) -> None:
-        if text not in seen:
-            seen.add(text)
-            out.append((kind, text, nouse))
+    def add(kind: str, text: str, nouse: tuple[str, ...] = (), complete: bool = False,
+            extra: dict[str, Any] | None = None, delete: list[tuple] | None = None,
+            both: bool = False) -> None:
+        key = text + "\x00" + repr(sorted((extra or {}).items())) + repr(delete)
+        if key not in seen:
+            seen.add(key)
+            out.append({"kind": kind, "src": text, "nouse": nouse, "complete": complete,
+                        "extra": extra or {}, "delete": delete or [], "both": both})
 
     # no-use forms first: an identical text from the general forms must not shadow them
     for kind, tpl in NOUSE:
@@ -470,6 +604,25 @@ def sweep() -> list[tuple[str, str, tuple[str, ...]]]:
         for p in SIMPLE_MISSING:
             for q in ("n", "nl", "f"):
                 add(kind, fill_fixed(tpl.replace("{P}", q), p, "arr"), ("falsy",))
+    # short circuit x right operand x what is deleted, sync and async
+    for kind, tpl in SC_FORMS:
+        rights = SC_RIGHT + (SC_RIGHT_LAMBDA if "{CL}" in tpl else [])
+        for ri in range(len(rights)):
+            n = [ri]
+
+            def pick(pool: list[str], n=n) -> str:  # noqa: ANN001
+                n[0] += 1
+                return pool[(n[0] - 1) % len(pool)]
+
+            text = sc_fill(tpl, pick)
+            for dels in SC_DELETIONS:
+                add(kind, text, ("strict", "falsy"), delete=dels, both=True)
+    # filters that look up optional context names themselves: every referenced variable
+    # is present; the optional names are absent / all present / present one at a time
+    variants: list[dict[str, Any]] = [{}, dict(OPTIONAL)] + [{k: v} for k, v in OPTIONAL.items()]
+    for kind, text in BABEL:
+        for extra in variants:
+            add(kind, text, complete=True, extra=extra, both=True)
     for kind, tpl in STMTS:
         arrays = ARRAYS if ("{A}" in tpl and "{P}" in tpl) else ["arr"]
         if "{P}" not in tpl:
